@@ -254,6 +254,26 @@ theorem search_order (s : St) (body : Cmd) :
   · rfl
   · simp [classify, defineFn, lookupFn]
 
+/-- …then the other built-ins, then `$PATH`: a substitutive built-in counts only if `$PATH` has its
+    name (otherwise the command is not found, 127, although the built-in exists), an external utility
+    found in `$PATH` is started (126: the simulated `execve` fails), a function of either name comes
+    first, and a name with a slash never reaches the functions -/
+theorem search_order_path (s : St) (body : Cmd) :
+    (lookupFn s.funcs .sbIn = none → classify s .sbIn = .status 0) ∧
+    (lookupFn s.funcs .sbOut = none → classify s .sbOut = .status 127) ∧
+    (lookupFn s.funcs .xtIn = none → classify s .xtIn = .status 126) ∧
+    classify { s with funcs := defineFn s.funcs .sbIn body } .sbIn = .function body ∧
+    classify { s with funcs := defineFn s.funcs .sbOut body } .sbOut = .function body ∧
+    classify { s with funcs := defineFn s.funcs .xtIn body } .xtIn = .function body ∧
+    classify { s with funcs := defineFn s.funcs .xtPath body } .xtPath = .status 126 := by
+  refine ⟨?_, ?_, ?_, ?_, ?_, ?_, rfl⟩
+  · intro h; simp [classify, h]
+  · intro h; simp [classify, h]
+  · intro h; simp [classify, h]
+  · simp [classify, defineFn, lookupFn]
+  · simp [classify, defineFn, lookupFn]
+  · simp [classify, defineFn, lookupFn]
+
 /-! ### ☆ exec_refines_spec: the frame-stack implementation refines the context semantics -/
 
 /-- Every command, in every state and with every fuel, behaves under the implementation's frame stack
